@@ -15,6 +15,8 @@ NAME_POOL = [
     'a_b', 'a_B', 'A_b', 'p', 'pp', 'ppp', 'z9', 'Z9', 'theta 1', 'theta.1', 'théta',
     'n#1', 'n%', "q'", 'k+', 'k*', 'k/2', 'r&d', 'w@', 'v!', 'u?', 'sigma^2', '1st', '2',
     'e|f', 'g;h', 'i\\j', 'ω', 'Ж', '名前',
+    # names are free strings: a blank at one end, an equal sign (the separator of the saved-iteration file) inside
+    'b ', ' b', 'a=b', 'a = b', 'k = 1 ',
 ]
 
 
